@@ -327,7 +327,7 @@ struct VModel {
 };
 
 // ---------------- random histories ---------------------------------------------------
-static const char *STRS[] = {"a", "", "12", "-3", "2.5", "true", "false", "x y", "b", "1e2"};
+static const char *STRS[] = {"a", "", "12", "-3", "2.5", "true", "false", "x y", "b", "1e2", "12abc", "2.5.1"};   // (a numeric prefix is not a numeral)
 static Lit rnd_lit(vf::Rng &rng) {
     switch (rng.below(12)) {
         case 0: return {'U', "", 0, ""};
@@ -337,7 +337,7 @@ static Lit rnd_lit(vf::Rng &rng) {
         case 4: return {'N', "u64", (long)rng.below(1000), ""};
         case 5: return {'N', "i64", -(long)rng.below(1000) - 1, ""};
         case 6: return {'N', "real", (long)rng.below(2001) - 1000, ""};
-        case 7: case 8: return {'S', "", 0, STRS[rng.below(10)]};
+        case 7: case 8: return {'S', "", 0, STRS[rng.below(12)]};
         case 9: return {'A', "", 0, ""};
         default: return {'O', "", 0, ""};
     }
